@@ -95,6 +95,35 @@ def _node_calls(nd) -> List[ast.Call]:
     return ([nd.ast] if isinstance(nd.ast, ast.Call) else []) + calls_in(nd.ast)
 
 
+def _replaces_in_helper(idx, f, call: ast.Call, P: str) -> bool:
+    """`self._helper(..., P, ...)` where the helper, on every path to a return, passes `<that parameter>` to `.replace(...)`:
+    the placeholder is replaced inside the helper (a summary, so that extracting the import-and-replace step into a method
+    does not change the verdict)."""
+    if not (is_self_attr(call.func) and f.cls is not None):
+        return False
+    h = idx.find_method(f.cls.qualname, call.func.attr)
+    if h is None:
+        return False
+    ps = [a.arg for a in h.node.args.posonlyargs + h.node.args.args][1:]
+    pname = None
+    for i, a in enumerate(call.args):
+        if isinstance(a, ast.Name) and a.id == P and i < len(ps):
+            pname = ps[i]
+    for k in call.keywords:
+        if isinstance(k.value, ast.Name) and k.value.id == P:
+            pname = k.arg
+    if pname is None:
+        return False
+    hcfg = CFG(h.node)
+
+    def replaces(nd) -> bool:
+        return nd.ast is not None and any(isinstance(c.func, ast.Attribute) and c.func.attr == "replace" and c.args
+                                          and isinstance(c.args[0], ast.Name) and c.args[0].id == pname for c in _node_calls(nd))
+
+    rets = [nd for nd in hcfg.nodes if nd.kind == "stmt" and isinstance(nd.ast, ast.Return)]
+    return bool(rets) and all(replaces(r) or hcfg.must_pass_through(hcfg.entry.id, r.id, replaces) for r in rets)
+
+
 def check(ctx, res) -> None:
     _check_main(ctx, res)
     _shared(ctx, res)
@@ -194,6 +223,8 @@ def _check_main(ctx, res) -> None:
             for nd in cfg.nodes:
                 for c in _node_calls(nd):
                     if isinstance(c.func, ast.Attribute) and c.func.attr == "replace" and c.args and uses_P(c.args[0]):
+                        repl.append(nd)
+                    elif _replaces_in_helper(idx, f, c, P):
                         repl.append(nd)
                     elif any(uses_P(a) for a in list(c.args) + [k.value for k in c.keywords]):
                         intro.append(nd)
